@@ -85,5 +85,13 @@ TSupportSimulate ==
          /\ FLt("0.0", Ev.tau2) /\ Ev.response_finite)
   /\ UNCHANGED <<gvars, svars>> /\ Step
 
-TNext == TSupportSimulate \/ TTfpSimulate \/ TSimulate \/ TAssign \/ TSetAuto \/ TUpdateAll \/ TSave \/ TRestore
+\* parameters that broadcast against the value: the shape of the value is kept, every entry is a realisation of its own
+TBroadcastSimulate ==
+  /\ IsEvent("broadcast_simulate")
+  /\ Chk("simulate_with_real_distributions_completed", Ev.crash = "")
+  /\ Chk("draws_have_the_shapes_of_the_current_values", Ev.shapes = <<<<5>>, <<5, 3>>, <<2, 5, 3>>>>)
+  /\ Chk("entries_of_a_draw_are_separate_realisations", Ev.distinct = <<5, 15, 30>>)
+  /\ UNCHANGED <<gvars, svars>> /\ Step
+
+TNext == TBroadcastSimulate \/ TSupportSimulate \/ TTfpSimulate \/ TSimulate \/ TAssign \/ TSetAuto \/ TUpdateAll \/ TSave \/ TRestore
 =============================================================================
